@@ -13,3 +13,61 @@ LEVEL_NOTE = 'Trusted: Coq kernel; hand-written model Model/Core.v + Model/Prog.
 FAMILIES = [
     progs.program_family("programs", oracles.oracle_c13, 150, 3000, deep=dict(depth=5), **dict(p_globals=0.5, fault=0.3, registry_rate=0.0, p_fault_ser=0.3, p_typed=0.8, p_raw=0.12)),
 ]
+
+
+# ---- two threads whose typed messages fail to serialize at the same time (line-granular schedules) ----
+import json
+from lib.framework import Family
+
+
+def gen_threads(rng, tier):
+    out = []
+    for i in range(0, 90 if tier == "quick" else 220, 3 if tier == "quick" else 1):
+        out.append({"segments": [[0, i], [1, 3000], [0, 3000]]})
+        out.append({"segments": [[1, i], [0, 3000], [1, 3000]]})
+    for _ in range(20 if tier == "quick" else 300):
+        out.append({"sched": [rng.randrange(2) for _ in range(rng.randrange(0, 400))]})
+    return out
+
+
+def impl_threads(case):
+    from lib.linesched import LineScheduler, segments_to_schedule, instrument
+    from eliot import MessageType, Field, _output
+
+    class Bad(Exception):
+        pass
+
+    def boom(v):
+        raise Bad("cannot serialize %r" % (v,))
+    d = _output.Destinations()
+    _output.Logger._destinations = d
+    got = []
+    d.add(lambda m: got.append(dict(m)))
+    types = [MessageType("typed:%d" % t, [Field("x", boom, "")], "") for t in range(2)]
+    s = LineScheduler(files=("eliot/_output.py",))
+    instrument(d, s)
+
+    def make(t):
+        return lambda: types[t].log(x=t)
+    sched = case.get("sched")
+    if sched is None:
+        sched = segments_to_schedule([tuple(x) for x in case["segments"]])
+    s.run([make(0), make(1)], sched)
+    return {"results": s.results, "kinds": sorted(m.get("message_type") for m in got),
+            "delivered_typed": [m.get("message_type") for m in got if str(m.get("message_type")).startswith("typed:")]}
+
+
+def oracle_threads(case, obs):
+    for r in obs["results"]:
+        if not r or r[0] != "ok":
+            return "a typed logging call raised: %r" % (r,)
+    if obs["delivered_typed"]:
+        return "a message whose serializer failed was delivered: %r" % obs["delivered_typed"]
+    want = sorted(["eliot:traceback", "eliot:serialization_failure"] * 2)
+    if obs["kinds"] != want:
+        return "two failing typed messages produced %r, expected one traceback and one serialization_failure each" % (obs["kinds"],)
+    return None
+
+
+FAMILIES.append(Family("threads", gen_threads, impl_threads, None, None, oracle_threads,
+                       lambda case, obs: json.dumps(case), shard=30, case_timeout=30))
